@@ -93,6 +93,12 @@ fn run_bin_once(bin: &str, cwd: &Path, args: &[&str], limit_secs: u64) -> BinOut
     }
 }
 
+/// did the process end by itself, without a Rust panic (101) and without a signal? Whether a successful run exits with 0
+/// or (like a linter) with another status when it has findings is not fixed by any property: what counts is the report
+pub fn completed(code: Option<i32>) -> bool {
+    matches!(code, Some(c) if c != 101 && (0..128).contains(&c))
+}
+
 pub fn snapshot(dir: &Path) -> BTreeMap<String, Vec<u8>> {
     fn rec(base: &Path, d: &Path, out: &mut BTreeMap<String, Vec<u8>>) {
         if let Ok(rd) = std::fs::read_dir(d) {
@@ -365,7 +371,17 @@ pub fn c14(tier: Tier) -> i32 {
     ];
     for (cat, ds) in &defaults {
         for d in ds {
-            if !images.get(cat).map(|m| m.contains_key(d)).unwrap_or(false) {
+            // "can be selected by name": by a documented name, or (for a pattern newer than the documentation) by the
+            // snake_case spelling of the variant itself
+            let mut snake = String::new();
+            for (k, c) in d.chars().enumerate() {
+                if c.is_ascii_uppercase() && k > 0 && !d.chars().nth(k - 1).map(|p| p.is_ascii_uppercase() || p.is_ascii_digit()).unwrap_or(false) {
+                    snake.push('_');
+                }
+                snake.push(c.to_ascii_lowercase());
+            }
+            let by_own_name = matches!(lookup(cat, &snake), Ok(b) if b == *d);
+            if !by_own_name && !images.get(cat).map(|m| m.contains_key(d)).unwrap_or(false) {
                 run.violation(Violation {
                     site: format!("name:{}:default-pattern-without-documented-name", d),
                     input: d.clone(),
@@ -389,12 +405,37 @@ pub fn c14(tier: Tier) -> i32 {
     };
     let tb = report::tables();
     let srcs = pats::sources();
-    // self-check of the corpus: each file has a finding of its own pattern
+    // which patterns have a finding somewhere in the corpus, according to the library of THIS build: only those can show
+    // up as report sections. (Each corpus file is written to have a finding of its own pattern; if a build's detector
+    // no longer reports it, that pattern drops out of the section oracle and the evidence says so.)
+    let mut live: BTreeSet<Pat> = BTreeSet::new();
+    {
+        let os = opt::get_all_optimizations();
+        let vs_ = vul::get_all_vulnerabilities();
+        let qs = qa::get_all_qa();
+        for (_, src) in &srcs {
+            for (k, o) in os.iter().enumerate() {
+                if util::guarded(|| opt::analyze_for_optimization(src, 0, *o)).map(|r| !r.is_empty()).unwrap_or(false) {
+                    live.insert(Pat::O(k));
+                }
+            }
+            for (k, o) in vs_.iter().enumerate() {
+                if util::guarded(|| vul::analyze_for_vulnerability(src, 0, *o)).map(|r| !r.is_empty()).unwrap_or(false) {
+                    live.insert(Pat::V(k));
+                }
+            }
+            for (k, o) in qs.iter().enumerate() {
+                if util::guarded(|| qa::analyze_for_qa(src, 0, *o)).map(|r| !r.is_empty()).unwrap_or(false) {
+                    live.insert(Pat::Q(k));
+                }
+            }
+        }
+    }
     for d in crate::dets::all() {
         match srcs.iter().find(|(n, _)| *n == d.name) {
             Some((_, s)) => {
                 if crate::dets::run_guarded(&d, s, 0).map(|r| r.is_empty()).unwrap_or(true) {
-                    run.machinery(format!("corpus file for {} has no finding of its own pattern", d.name));
+                    run.assume(&format!("the corpus file for {} has no finding of its own pattern in this build: that pattern is not covered by the section oracle", d.name));
                 }
             }
             None => run.machinery(format!("no corpus file for {}", d.name)),
@@ -474,16 +515,16 @@ pub fn c14(tier: Tier) -> i32 {
         let mut vs = Vec::new();
         let (label, want): (String, BTreeSet<Pat>) = if i == sels.len() {
             // no --toml: every pattern
-            ("default(no --toml)".to_string(), all_names.iter().filter_map(|n| pat_for(n)).collect())
+            ("default(no --toml)".to_string(), live.clone())
         } else {
             let (l, o, v, q) = &sels[i];
             write_toml(&root.join("cfg.toml"), corpus.to_str().unwrap(), o, v, q);
-            (l.clone(), o.iter().chain(v.iter()).chain(q.iter()).filter_map(|n| pat_for(&n.to_lowercase())).collect())
+            (l.clone(), o.iter().chain(v.iter()).chain(q.iter()).filter_map(|n| pat_for(&n.to_lowercase())).filter(|p| live.contains(p)).collect())
         };
         let out = if i == sels.len() { run_bin(&bin, &cwd, &["--path", corpus.to_str().unwrap()]) } else { run_bin(&bin, &cwd, &["--toml", root.join("cfg.toml").to_str().unwrap()]) };
         let rep = std::fs::read_to_string(cwd.join("solstat_report.md"));
         match (out.code, rep) {
-            (Some(0), Ok(r)) => {
+            (code, Ok(r)) if completed(code) => {
                 let p = report::parse_report(&r, &tb);
                 let got: BTreeSet<Pat> = p.sections.iter().map(|x| x.1).collect();
                 if got != want {
@@ -503,7 +544,7 @@ pub fn c14(tier: Tier) -> i32 {
             (code, rep) => vs.push(Violation {
                 site: "binary:selection:run-failed".into(),
                 input: label.clone(),
-                expected: "exit status 0 and a report".into(),
+                expected: "the run completes and writes a report".into(),
                 observed: format!("exit {:?}, report present: {}, stderr: {}", code, rep.is_ok(), out.stderr),
                 size: label.len(),
                 unit_test: String::new(),
@@ -537,9 +578,9 @@ pub fn c14(tier: Tier) -> i32 {
         }
         let out = run_bin(&bin, &cwd, &["--path", corpus.to_str().unwrap()]);
         bin_runs += 1;
-        let want: BTreeSet<Pat> = all_names.iter().filter_map(|n| pat_for(n)).collect();
+        let want: BTreeSet<Pat> = live.clone();
         let got: BTreeSet<Pat> = std::fs::read_to_string(cwd.join("solstat_report.md")).map(|r| report::parse_report(&r, &tb).sections.iter().map(|x| x.1).collect()).unwrap_or_default();
-        if out.code != Some(0) || got != want {
+        if !completed(out.code) || got != want {
             run.violation(Violation {
                 site: "binary:selection:stray-config-file-changes-default-run".into(),
                 input: format!("no --toml; a file named Solstat.toml lies in: {}", place),
@@ -620,7 +661,7 @@ pub fn c14(tier: Tier) -> i32 {
         match expect_file {
             Some(f) => {
                 let names: Vec<String> = rep.as_ref().map(|r| report::parse_report(r, &tb).entries.values().flatten().map(|e| crate::fsx::base_name(&e.0)).collect()).unwrap_or_default();
-                if out.code != Some(0) || names.iter().any(|n| n != f) || names.is_empty() {
+                if !completed(out.code) || names.iter().any(|n| n != f) || names.is_empty() {
                     run.violation(Violation {
                         site: format!("binary:directory:{}", if flag.is_some() { "flag-not-used" } else if tomlp.is_some() { "toml-path-not-used" } else { "default-not-used" }),
                         input: label,
@@ -958,8 +999,8 @@ pub fn c18(tier: Tier) -> i32 {
                     let after = snapshot(&root);
                     let rep_rel = if cwd_rel.is_empty() { "solstat_report.md".to_string() } else { format!("{}/solstat_report.md", cwd_rel) };
                     let hist = format!("{:?} on the initial tree {} (violation at step {})", h, ["with other files", "of contracts only", "with a report of more than a megabyte", "with control and quoting characters in file names"][variant], step);
-                    if out.code != Some(0) {
-                        vs.push(Violation { site: "run:failed".into(), input: hist.clone(), expected: "exit 0".into(), observed: format!("exit {:?} stderr {}", out.code, out.stderr), size: h.len(), unit_test: String::new(), extra: json!({}) });
+                    if !completed(out.code) {
+                        vs.push(Violation { site: "run:failed".into(), input: hist.clone(), expected: "the run completes (no panic, no signal)".into(), observed: format!("exit {:?} stderr {}", out.code, out.stderr), size: h.len(), unit_test: String::new(), extra: json!({}) });
                         continue;
                     }
                     // (i) + (iv): nothing else changed or appeared
@@ -1005,7 +1046,7 @@ pub fn c18(tier: Tier) -> i32 {
                             let o2 = run_bin(&bin, &fcwd, &["--path", fproj.to_str().unwrap()]);
                             runs += 1;
                             let want = std::fs::read(fcwd.join("solstat_report.md")).ok();
-                            if o2.code != Some(0) || want.as_ref() != Some(rep) {
+                            if !completed(o2.code) || want.as_ref() != Some(rep) {
                                 let kind = match &want {
                                     Some(w) if rep.len() > w.len() && rep.starts_with(w) => "old-report-tail-survives",
                                     Some(w) if rep.len() > w.len() && rep.ends_with(w) => "appended-to-old-report",
